@@ -181,6 +181,7 @@ pub struct Property {
 
 pub fn run_case_once(case: &Case, prefix: &[ChoiceRec]) -> (ExecResult, Vec<Entry>, u64) {
     crate::scenes::set_ambient(Default::default());
+    crate::ops::reset_post();
     case.scene.pre();
     world::reset(case.scene.roles());
     let on_event: Rc<dyn Fn(vexec::ExecEvent, u64, u64)> = Rc::new(|ev, _, _| world::log_exec(ev));
@@ -204,6 +205,7 @@ pub fn run_case_once(case: &Case, prefix: &[ChoiceRec]) -> (ExecResult, Vec<Entr
 pub fn run_case_real(case: &Case) -> Vec<Entry> {
     use std::future::Future;
     crate::scenes::set_ambient(Default::default());
+    crate::ops::reset_post();
     case.scene.pre();
     world::reset(case.scene.roles());
     world::set_real_mode(true);
